@@ -3,7 +3,7 @@
    impl_* : librdengine.py + engine.cpp as they are organised: one process-global simulation pointer
             with a freed flag, a Python-side status flag per object; undefined behaviour is a value. *)
 From Coq Require Import ZArith QArith Qcanon List Lia Bool.
-From Verif Require Import Num NumFacts Sampling SamplingFacts Lifecycle LifecycleFacts.
+From Verif Require Import Num NumFacts Sampling SamplingFacts Lifecycle LifecycleFacts Simulate SimulateFacts.
 Open Scope Qc_scope.
 
 (* on every lifecycle-respecting history over one engine object the implementation returns exactly what the
@@ -59,6 +59,28 @@ Theorem C10_finalize_idempotent : forall w e,
   spec_step (fst (spec_step w (LFinalize e))) (LFinalize e) = (fst (spec_step w (LFinalize e)), OUnit).
 Proof. exact finalize_twice. Qed.
 Print Assumptions C10_finalize_idempotent.
+
+(* two (or more, in turn) engine objects: as long as at most one of them holds a live simulation at a time - set-up, use,
+   finalize, then the next - the single global simulation returns exactly what one simulation per object would return, and never
+   runs into undefined behaviour.  (F13 below is what happens without that discipline.) *)
+Theorem C10_exclusive_sessions : forall h, exclusive None h = true -> impl_run gworld0 h = spec_run world0 h.
+Proof. exact refinement_sessions. Qed.
+Print Assumptions C10_exclusive_sessions.
+
+(* simulate_script (simulate.py) keeps that discipline: set-up, run until completion (with or without progress queries), fetch the
+   output, finalize.  Any sequence of simulate calls on any engine objects, whatever the clock made of each run: no undefined
+   behaviour, the specification's outcomes, and every call returns what it would return alone in a fresh process *)
+Theorem C10_simulate_sequence : forall invs,
+  impl_run gworld0 (flat_map invocation_history invs) = spec_run world0 (flat_map invocation_history invs)
+  /\ ~ In OUB (impl_run gworld0 (flat_map invocation_history invs)).
+Proof. intro invs. split; [apply simulate_sequence_refines | apply simulate_sequence_no_ub]. Qed.
+Print Assumptions C10_simulate_sequence.
+
+Theorem C10_simulate_isolated : forall before i after, exists pre post,
+  impl_run gworld0 (flat_map invocation_history (before ++ i :: after)) = pre ++ spec_run world0 (invocation_history i) ++ post
+  /\ length pre = length (flat_map invocation_history before).
+Proof. exact simulate_call_isolated. Qed.
+Print Assumptions C10_simulate_isolated.
 
 (* Known finding F13: with TWO engine objects the implementation does not refine the specification, because both
    drive the single process-global simulation: A.setup; B.setup; A.iterate advances B's simulation. *)
